@@ -23,7 +23,7 @@ from hypothesis import strategies as st
 
 LOOP_NAMES = ["gen", "work", "acc", "check", "tail"]
 OUTER_NAMES = ["srcA", "srcB", "srcC"]
-BIND_NAMES = ["bx", "by"]
+BIND_NAMES = ["carried", "by"]      # one longer, one shorter than every looped component name
 CONS_NAMES = ["repA", "repB"]
 FILES = [None, None, "d.txt", "sub/e.dat"]
 METHODS_IN = ["ref", "output", "copy"]
@@ -136,6 +136,22 @@ def dowhile_case(draw, kmax=13, kmin_bias=12, two_stage=True, allow_same_names=T
                 t = ok[draw(st.integers(0, len(ok) - 1))]
                 b["loop"] = {"to": t, "file": None if ufile is not None else draw(st.sampled_from(FILES)),
                              "abs": draw(st.booleans()) if loop[t]["ls"] == 0 else True}
+    # motif: one component reads looped component X directly AND, later on the same command line, a loop-carried binding
+    # that X feeds, both with the same method (the binding's text `stageN.<i-1>#X:m` then contains the direct `X:m`)
+    if binds and draw(st.integers(0, 5)) == 0:
+        bi = 0 if draw(st.integers(0, 2)) else draw(st.integers(0, len(binds) - 1))   # mostly the long-named binding
+        b = binds[bi]
+        cand = [(t, j) for t in range(n_loop) for j in range(t + 1, n_loop)
+                if not reps[t] and stages[t] == stages[j] and names.count(names[t]) == 1]
+        if cand:
+            t, j = cand[draw(st.integers(0, len(cand) - 1))]
+            b["loop"] = {"to": t, "file": None, "abs": draw(st.booleans()) if loop[t]["ls"] == 0 else True}
+            for comp in loop:
+                for u in comp["uses"]:
+                    if u.get("b") == bi:
+                        u["file"] = None
+            rest = [u for u in loop[j]["uses"] if u.get("c") != t and u.get("b") != bi]
+            loop[j]["uses"] = [{"c": t, "method": b["type"], "file": None, "abs": False}] + rest + [{"b": bi, "file": None}]
     # the condition must come from a non-replicated component (its name is matched literally)
     single = [j for j in range(n_loop) if not replicas(loop)[j]]
     cond_c = single[draw(st.integers(0, len(single) - 1))]
